@@ -61,7 +61,8 @@ Definition w_load_entities (d : edump * list nat) (s : W) : option W :=
        end.
 
 (** ** The correspondence case: a script (as for [run_script]); the dump of its final state is
-    loaded into a new world of the same configuration; output = internal dump of that world. *)
+    loaded into a new world of the same configuration, or into a world with a history of its
+    own that ends with Reset; output = internal dump of that world. *)
 Fixpoint final_state (debug : bool) (s : W) (lines : list (list Z)) : W :=
   match lines with
   | [] => s
@@ -70,11 +71,15 @@ Fixpoint final_state (debug : bool) (s : W) (lines : list (list Z)) : W :=
 
 Definition dumpload_world (lines : list (list Z)) : list Z :=
   match lines with
-  | cfg :: _ :: ops =>
+  | cfg :: [k] :: ops =>
       match decode_cfg cfg with
       | Some c =>
-          let s := final_state (sc_debug c) (init_world c) ops in
-          match w_load_entities (w_dump_entities s) (init_world c) with
+          (* the first [k] operation lines are the receiving world's own history (ending with its
+             Reset); [k = 0]: a new world. The remaining lines are the source world's history. *)
+          let kk := Z.to_nat k in
+          let tgt := final_state (sc_debug c) (init_world c) (firstn kk ops) in
+          let s := final_state (sc_debug c) (init_world c) (skipn kk ops) in
+          match w_load_entities (w_dump_entities s) tgt with
           | Some s' => dump s'
           | None => [(-3)%Z]
           end
